@@ -57,8 +57,10 @@ TRUSTED = [
     "nameplate_done/mailbox_done/stoppedRC when the case says so (C08 owns their real behaviour)",
     "Noise is harness/fakes.ToyNoise; the peer's prologue+handshake+KCM arrive as one well-formed chunk",
     "subchannel machinery behind a successful connect() (C13) and record traffic (C10/C12) are not exercised",
-    "TrafficTimer (C16) is modelled only as 'the leader starts its ping timer when a connection is made and the "
-    "timer is cancelled when the connection is lost or abandoned'; its intervals never elapse in these runs",
+    "TrafficTimer (C16): its `interval_elapsed` rows are the generated table and the ping-timer handle (None / "
+    "pending / fired DelayedCall, a real twisted DelayedCall on task.Clock) is modelled with the four source flags "
+    "of tools/extract.py; `got_connection` / `lost_connection` are taken as no_connection->connected[begin_timing] "
+    "and ->no_connection[]; the peer never answers a Ping in these runs (pong handling is C16's)",
     "inbound connections (dialled by the peer) that were never selected are closed by the peer, not by us: "
     "Connector tracks only outbound protocols in _pending_connections (the source says so in a TODO); reported as "
     "an observation tag, not a violation",
@@ -333,7 +335,8 @@ class World:
     def summary(self):
         m = self.mgr()
         if m is None:
-            ms, role, conn, timer, main = "-", "-", "-", 0, "-"
+            ms, role, conn, timer, main = "-", "-", "-", "none", "-"
+            tt = "-"
             fired = 0
             key, ver = 0, "-"
         else:
@@ -345,7 +348,8 @@ class World:
                 for i, c in enumerate(self.conns):
                     if c.proto is m._connection:
                         conn = str(i)
-            timer = 1 if m._timer is not None else 0
+            timer = "none" if m._timer is None else ("pending" if m._timer.active() else "fired")
+            tt = "-" if m._traffic is None else automat_state(m._traffic)
             r = m._main_channel._result
             from wormhole.observer import NoResult
             main = "none" if r is NoResult else ("ok" if r is None else "err")
@@ -361,7 +365,7 @@ class World:
         regs = list(m._subprotocol_factories._factories.keys()) if m is not None else []
         d = self.D
         pend = f"{1 if d._pending_dilation_key is not None else 0}{1 if d._pending_wormhole_versions is not None else 0}{len(d._pending_inbound_dilate_messages)}"
-        return (f"M={ms} key={key} ver={ver} role={role} conn={conn} timer={timer} main={main} fired={fired} T={automat_state(self.T)} "
+        return (f"M={ms} key={key} ver={ver} role={role} conn={conn} timer={timer} tt={tt} main={main} fired={fired} T={automat_state(self.T)} "
                 f"closed={self.closed} D={pend} W=[{' '.join(self.waiters)}] E={len(self.eps)} R=[{' '.join(regs)}] C=[{' | '.join(cs)}]")
 
     def _lflags(self, l, c):
@@ -436,6 +440,16 @@ class World:
             return None
         if k == "t":
             getattr(self.T, op[1])(*((("happy",)) if op[1] == "close" else ()))
+            return None
+        if k == "expire":
+            # the ping interval is over: the Manager's pending DelayedCall fires (a real twisted DelayedCall)
+            m = self.mgr()
+            if m is None or m._timer is None or not m._timer.active():
+                return "no-timer"
+            c = m._timer
+            self.clock.calls.remove(c)
+            c.called = 1
+            c.func(*c.args, **c.kw)
             return None
         if k == "turn":
             calls = [c for c in self.clock.calls if c.func == self.eq._turn]
@@ -893,6 +907,21 @@ def corpus():
         out.append({"cfg": {}, "ops": [["dilate"]] + EPS + [["econnect", 0], ["elisten", 2], ["key"], ["versions", "full"], ["turn"],
                                                           ["econnect", 1], ["msg", "please", side], ["inbound", 0], ["kcm", 0], ["turn"], ["turn"]] +
                     use_all + [["turn"], ["elisten", 2], ["econnect", 0], ["turn"]] + CLOSE, "name": "eps/capable"})
+    # the Leader's peer goes silent: k ping intervals elapse (after the second the TrafficTimer fires signal_reconnect:
+    # the connection is only ASKED to close, the Manager stays CONNECTED), close() at every point up to the loss
+    # report, which is delayed arbitrarily
+    for side in (LOW_SIDE, HIGH_SIDE):
+        conn = [["dilate"], ["key"], ["versions", "full"], ["msg", "please", side], ["inbound", 0], ["kcm", 0], ["turn"], ["turn"]]
+        for k in (1, 2, 3):
+            tail = [["expire"]] * k + [["turn"], ["lost", 0], ["turn"], ["turn"]]
+            for i in range(len(tail) + 1):          # where Dilator.stop() happens
+                for j in range(0, min(i, 2) + 1):   # close() itself was issued up to two steps earlier
+                    ops = conn + tail[:i - j] + CLOSE[:3] + tail[i - j:i] + CLOSE[3:] + tail[i:]
+                    out.append({"cfg": {}, "ops": ops, "name": f"silent/{'L' if side == LOW_SIDE else 'F'}/{k}/{i}/{j}"})
+        # silent peer, connection lost and re-made (timer cancelled and restarted), silent again
+        out.append({"cfg": {}, "ops": conn + [["expire"], ["lost", 0], ["turn"], ["expire"],
+                                              ["msg", "reconnecting" if side == LOW_SIDE else "reconnect"], ["inbound", 1], ["kcm", 1],
+                                              ["turn"], ["expire"], ["expire"], ["expire"]] + CLOSE, "name": "silent/again"})
     # an incapable peer that nevertheless asks to dilate
     out.append({"cfg": {}, "ops": [["key"], ["versions", "empty"], ["dilate"], ["connect"], ["turn"], ["msg", "please", LOW_SIDE],
                                    ["inbound", 0], ["kcm", 0], ["turn"], ["connect"], ["turn"]] + CLOSE, "name": "old-but-pleases"})
@@ -924,6 +953,9 @@ def enabled_ops(w):
             ops.append(["dial", i])
         elif a.phase == "dialing":
             ops += [["dialok", i], ["dialfail", i]]
+    m = w.mgr()
+    if m is not None and m._timer is not None and m._timer.active():
+        ops += [["expire"]] * 3
     for i, c in enumerate(w.conns):
         if not c.lost:
             if automat_state(c.proto) == "unselected":
